@@ -44,8 +44,10 @@ def g(f):
         return {"err": adapter.err_class(e)}
 
 
-def check_tree(ctx, out, spec, tag, rot):
-    tree = adapter.build(spec, ctx.pool)
+def check_tree(ctx, out, spec, tag, rot, levelorder=False):
+    # levelorder: the same tree created level by level, siblings back to front: the registration order of the
+    # indexes then differs from the document order (searches must not depend on it)
+    tree = (adapter.build_levelorder if levelorder else adapter.build)(spec, ctx.pool)
     ser = adapter.Serials()
     ser.by_obj[id(tree.system_root)] = 0
     ser.keep.append(tree.system_root)
@@ -71,13 +73,13 @@ def check_tree(ctx, out, spec, tag, rot):
                         impl = g(lambda: adapter.ids(start.find_all(match=marg, add_self=add_self, max_results=k), ser))
                     else:
                         impl = g(lambda: adapter.ids(tree.find_all(match=marg, max_results=k), ser))
-                    case = dict(q="nodeMatch", spec=spec, path=list(path), pat=[kind, repr(arg)], k=k, self=add_self)
+                    case = dict(q="nodeMatch", spec=spec, path=list(path), pat=[kind, repr(arg)], k=k, self=add_self, levelorder=levelorder)
                     reqs.append({"op": "search", "q": "nodeMatch", "t": tj, "path": list(path), "m": tbl, "k": k, "self": add_self})
                     pend.append((case, impl, f"find_all(match={arg!r}, max_results={k}, add_self={add_self}) at {list(path)}"))
                     out.count((tag, repr(spec), path, kind, repr(arg), k, add_self), nontriv)
                     out.dist[f"k={k}"] += 1
             impl = g(lambda: i(start.find_first(match=marg) if path else tree.find_first(match=marg)))
-            case = dict(q="nodeFirst", spec=spec, path=list(path), pat=[kind, repr(arg)])
+            case = dict(q="nodeFirst", spec=spec, path=list(path), pat=[kind, repr(arg)], levelorder=levelorder)
             reqs.append({"op": "search", "q": "nodeFirst", "t": tj, "path": list(path), "m": tbl})
             pend.append((case, impl, f"find_first(match={arg!r}) at {list(path)}"))
             out.dist["pat:" + kind] += 1
@@ -87,7 +89,7 @@ def check_tree(ctx, out, spec, tag, rot):
                 d = pool.canon_did(did_real)
                 for add_self in (False, True):
                     impl = g(lambda: [adapter.ids(start.find_all(data_id=did_real, add_self=add_self), ser), i(start.find_first(data_id=did_real))])
-                    case = dict(q="nodeId", spec=spec, path=list(path), did=d, self=add_self)
+                    case = dict(q="nodeId", spec=spec, path=list(path), did=d, self=add_self, levelorder=levelorder)
                     reqs.append({"op": "search", "q": "nodeId", "t": tj, "path": list(path), "did": d, "self": add_self})
                     pend.append((case, impl, f"node.find_all(data_id={d!r}, add_self={add_self}) at {list(path)}"))
                     out.count((tag, repr(spec), path, "id", d, add_self), nontriv)
@@ -109,7 +111,7 @@ def check_tree(ctx, out, spec, tag, rot):
             impl = g(lambda: [adapter.ids(tree.find_all(data_id=real, max_results=k), ser), i(tree.find_first(data_id=real)), None])
             if isinstance(impl, list):
                 impl[2] = bool(adapter.ids(tree.find_all(data_id=real), ser))
-            case = dict(q="treeId", spec=spec, did=dc, k=k)
+            case = dict(q="treeId", spec=spec, did=dc, k=k, levelorder=levelorder)
             reqs.append({"op": "search", "q": "treeId", "t": tj, "byData": by_data, "did": dc, "k": k})
             pend.append((case, impl, f"tree.find_all(data_id={dc!r}, max_results={k})"))
             out.count((tag, repr(spec), "treeId", dc, k), nontriv)
@@ -119,7 +121,7 @@ def check_tree(ctx, out, spec, tag, rot):
         dc = pool.canon_did(tree.calc_data_id(o))
         for k in (None, 1, 2):
             impl = g(lambda: [adapter.ids(tree.find_all(o, max_results=k), ser), i(tree.find_first(o)), o in tree])
-            case = dict(q="treeId", spec=spec, data=a, did=dc, k=k)
+            case = dict(q="treeId", spec=spec, data=a, did=dc, k=k, levelorder=levelorder)
             reqs.append({"op": "search", "q": "treeId", "t": tj, "byData": by_data, "did": dc, "k": k})
             pend.append((case, impl, f"tree.find_all({o!r}, max_results={k}) / find_first / in"))
             out.count((tag, repr(spec), "treeData", a, k), nontriv)
@@ -142,7 +144,7 @@ def check_tree(ctx, out, spec, tag, rot):
             wire = {"k": "obj", "isInt": is_int, "asId": as_id, "calc": pool.canon_did(tree.calc_data_id(key))}
         r = g(lambda: tree[key])
         impl = r if isinstance(r, dict) else {"ok": ser.of(r)}
-        case = dict(q="getitem", spec=spec, key=[kk, repr(key) if kk != "nid" else "node_id"], wire=wire)
+        case = dict(q="getitem", spec=spec, key=[kk, repr(key) if kk != "nid" else "node_id"], wire=wire, levelorder=levelorder)
         reqs.append({"op": "search", "q": "getitem", "t": tj, "byData": by_data, "byId": by_id, "key": wire})
         pend.append((case, impl, f"tree[{kk}:{key!r}]"))
         out.count((tag, repr(spec), "getitem", kk, repr(key) if kk != "nid" else nodes.index(tree[key]) if False else repr(wire)), nontriv)
@@ -171,11 +173,13 @@ def run(ctx):
     n_max = 5 if ctx.thorough else 4
     for spec in CORPUS:
         check_tree(ctx, out, spec, "corpus", rot)
+        check_tree(ctx, out, spec, "corpus-lo", rot, levelorder=True)
     for n in range(0, n_max + 1):
         for shape in gen.forests(n):
             lim = None if n <= 2 else (40 if ctx.thorough else 6)
             for spec in gen.labelings(shape, NAMES, limit=lim, rng=ctx.rng):
-                check_tree(ctx, out, spec, "ex", rot)
+                lo = n >= 2 and next(rot) % 2 == 0
+                check_tree(ctx, out, spec, "ex-lo" if lo else "ex", rot, levelorder=lo)
     out.extra["exhaustive_scope"] = f"all shapes <= {n_max} nodes; labelings exhaustive for <= 2 nodes, sampled above"
     for _ in range(120 if ctx.thorough else 20):
         n = ctx.rng.randrange(5, 14)
@@ -197,7 +201,9 @@ def run(ctx):
                 o.append((lab2, deco(k)))
             return o
 
-        check_tree(ctx, out, deco(spec), "rnd", rot)
+        spec = deco(spec)
+        check_tree(ctx, out, spec, "rnd", rot)
+        check_tree(ctx, out, spec, "rnd-lo", rot, levelorder=True)
         out.dist["random_tree"] += 1
     return out
 
@@ -211,6 +217,9 @@ CORPUS = [
     [({"a": 0, "did": 0}, [({"a": 1, "did": ""}, [])]), (6, [({"a": 2, "did": 0}, [])])],
     # 4 clones of "a1" (the res[k:] defect D3 needs >= 2 clones and k >= 1)
     [(0, [(6, [])]), (1, [(6, [])]), (7, [(6, [])]), (6, [])],
+    # a node named "a1"/"a" under an explicit data_id (name searches must not go through the data_id index), clones of
+    # "a1" whose creation order differs from the document order in the level-order build
+    [(0, [({"a": 6, "did": 4711}, []), (7, [(6, [])])]), (1, [(6, [])]), ({"a": 6, "did": "x"}, [])],
     # node_id 7 vs int data 7 (data_id 7): node_id lookup wins
     [({"a": 0, "nid": 7}, []), (12, []), ({"a": 1, "did": 1001}, []), ({"a": 8, "did": "sid"}, [])],
 ]
@@ -220,5 +229,5 @@ def replay(ctx, rp):
     from props.c10 import tuplify_d
 
     out = core.Outcome()
-    check_tree(ctx, out, tuplify_d(rp["case"]["spec"]), "replay", itertools.count())
+    check_tree(ctx, out, tuplify_d(rp["case"]["spec"]), "replay", itertools.count(), levelorder=bool(rp["case"].get("levelorder")))
     return dict(failures=out.oracle_failures[:8], disagreements=out.disagreements[:5], property_holds=not out.oracle_failures)
